@@ -1087,6 +1087,53 @@ func (p *Prog) Def(v ssa.Value) ssa.Value {
 	return v
 }
 
+// DefX is Def extended across calls: a parameter whose every call site inside the module passes the same defining value
+// (a helper that was split off its only caller: a sender / receiver function, a locked accessor) is replaced by that value.
+func (p *Prog) DefX(v ssa.Value) ssa.Value {
+	for i := 0; i < 8; i++ {
+		v = p.Def(v)
+		pa, ok := v.(*ssa.Parameter)
+		if !ok {
+			return v
+		}
+		g := pa.Parent()
+		idx := -1
+		for k, q := range g.Params {
+			if q == pa {
+				idx = k
+			}
+		}
+		n := p.CallGraph().Nodes[g]
+		if n == nil || idx < 0 {
+			return v
+		}
+		var origin ssa.Value
+		for _, in := range n.In {
+			if in.Caller.Func == nil || !InModule(in.Caller.Func) {
+				continue
+			}
+			cc := in.Site.Common()
+			if cc.IsInvoke() {
+				return v
+			}
+			off := len(g.Params) - len(cc.Args)
+			if off < 0 || idx-off < 0 || idx-off >= len(cc.Args) {
+				return v
+			}
+			d := p.Def(cc.Args[idx-off])
+			if origin != nil && origin != d {
+				return v
+			}
+			origin = d
+		}
+		if origin == nil {
+			return v
+		}
+		v = origin
+	}
+	return v
+}
+
 func singleStore(a *ssa.Alloc) *ssa.Store {
 	var st *ssa.Store
 	n := 0
